@@ -23,6 +23,7 @@ def sh(cmd, cwd, env=None, timeout=1800):
 
 def main():
     wt, prop = sys.argv[1], sys.argv[2].upper()
+    prefix = sys.argv[3] if len(sys.argv) > 3 else ""
     env = dict(os.environ, PYTHONPATH="%s:%s/spil_hamlet_conf" % (wt, wt))
     props = {json.loads(l)["id"]: json.loads(l) for l in open(os.path.join(HERE, "properties.jsonl"))}
     for k in (1, 2, 3):
@@ -53,7 +54,7 @@ def main():
         print(prop, k, "CONFIRMED" if ok else "REJECTED", json.dumps({k2: v for k2, v in report.items() if k2 not in ("demo_with_change_output",)}))
         if not ok:
             continue
-        dst = os.path.join(HERE, "seeded", "%s_%d" % (prop, k))
+        dst = os.path.join(HERE, "seeded", "%s_%s%d" % (prop, prefix, k))
         os.makedirs(dst, exist_ok=True)
         for f in ("patch.diff", "demo.py", "notes.md"):
             if os.path.exists(os.path.join(d, f)):
